@@ -27,6 +27,9 @@ def strategy(tier):
         st.tuples(st.just("become"), i),
         st.tuples(st.just("mkproc"), i),
         st.tuples(st.just("mkproc"), i),
+        # a psutil.Popen object (a Process subclass) around the listed child;
+        # somebody else (another object's wait(), a SIGCHLD reaper) may reap it
+        st.tuples(st.just("mkproc"), i, st.just("popen-class")),
         st.tuples(st.just("clock_step"), st.sampled_from([-3600, -1, 1, 2, 37, 3600, 86400, -86400])),
         # a board without RTC: the clock jumps from 1970 to today (and the
         # published boot time crosses many powers of two), or back
@@ -101,7 +104,7 @@ def run_case(case):
         for i, pid in enumerate(history.PID_POOL):
             if case["setup"] >> i & 1:
                 w.spawn(pid, child=bool(i & 1))
-                w.mkproc(pid)
+                w.mkproc(pid, via_popen="popen-class" if i % 4 == 3 else False)
         check_all("setup")
         for op in case["ops"]:
             kind = op[0]
@@ -118,7 +121,12 @@ def run_case(case):
                     sig.append("recycle")
             elif kind == "mkproc":
                 try:
-                    o = w.mkproc(w.pick_pid(op[1]))
+                    pid_ = w.pick_pid(op[1])
+                    if len(op) > 2 and w.owner_inc(pid_) is not None:
+                        o = w.mkproc(pid_, via_popen=op[2])
+                        sig.append("popen-object")
+                    else:
+                        o = w.mkproc(pid_)
                 except psutil.NoSuchProcess as e:
                     raise Violation("constructor", f"{e!r} for a listed PID") from None
                 if o is not None and stepped:
